@@ -539,6 +539,19 @@ def run(ck: Check):
         for f in route_failures:
             run_.failures.append({"relation": "route/" + f["route"], "factor": 1.0, "a": f["case"], "b": f["case"], "route": f["route"],
                                   "value_a": f["baseline"], "value_b": f.get("value"), "error": f.get("error")})
+        # (1b) ORDER established at construction vs order at use: Alignment / Taxa (UserLists) and the sequence list are
+        #      mutated in place between building one object and the next (alignment -> tree model -> site pattern -> likelihood);
+        #      the value must stay the brute-force marginal of the data BY NAME
+        mutation_failures = []
+        for i in range(20 if thorough else 6):
+            try:
+                case = G.gen_case(rng, rng.choice([3, 4, 5]), subst=rng.choice(["JC69", "HKY", "GTR", "LG"]), clock="strict",
+                                  nsites=rng.randint(3, 6), tip_states=(i % 2 == 1))
+                RT.check_mutations(ck, case, rng, mutation_failures)
+            except InfraError:
+                raise
+            except Exception as e:  # noqa: BLE001
+                ck.mismatch("order mutations could not be evaluated", {"error": repr(e)[:300]})
         # (2) the tree-model option use_postorder_indices only renumbers the leaves: taxa order must still not matter,
         #     and the value must be that of the same specification without the option
         for rooting in ("unrooted", "time", "unrooted", "time") if thorough else ("unrooted", "time"):
@@ -630,6 +643,15 @@ def run(ck: Check):
         ck.violation(sig, f"the same specification evaluated in the regime '{kind}' does not give the plain value: "
                      + json.dumps({k: v for k, v in res.items() if k not in ("where", "ok")}, default=str)[:300],
                      {"probe": {"kind": kind, "case": case}, "result": res, "replay_cmd": "./check C02 --replay <this file>"})
+    for how in sorted(set(f["mutation"] for f in mutation_failures)):
+        fs = sorted((f for f in mutation_failures if f["mutation"] == how), key=lambda f: len(json.dumps(f["case"])))
+        f = fs[0]
+        ck.violation("TreeLikelihoodModel:order-mutation:" + how,
+                     f"after the in-place reordering '{how}' of the live containers the likelihood is "
+                     + (f"{f['value']}" if f.get("error") is None else f"not computed ({f['error']})")
+                     + f" but the marginal of the data matched BY NAME is {f['oracle']} ({len(fs)} failing cases)",
+                     {"mutation": {"case": f["case"], "how": how}, "detail": {k: v for k, v in f.items() if k != "case"},
+                      "replay_cmd": "./check C02 --replay <this file>"})
     fails = run_.failures
     opt = [f for f in fails if "use_postorder_indices" in f["relation"]]
     if opt:
@@ -649,7 +671,7 @@ def run(ck: Check):
             f"({len(fails)} failing pairs, relations {rels}; smallest has {len(f['a']['taxa'])} taxa)",
             {"pair": f, "broken_obligations": broken, "mismatches": ck.mismatches[:3], "replay_cmd": "./check C02 --replay <this file>"},
         )
-    elif not opt and not regime_failures and (not ok or ck.mismatches):
+    elif not opt and not regime_failures and not mutation_failures and (not ok or ck.mismatches):
         ck.violation(
             "C02:unproved",
             "C02 theorems or the model/implementation correspondence no longer check "
@@ -662,6 +684,19 @@ def run(ck: Check):
 def replay(path: str) -> int:
     c01.setup_torch()
     obj = json.loads(Path(path).read_text())
+    if obj.get("mutation"):
+        import random
+
+        mu = obj["mutation"]
+        want, _ = G.oracle_loglik(mu["case"], G.build_model(mu["case"]))
+        try:
+            v = c01.impl_value(RT.mutation_route(mu["case"], mu["how"], random.Random(0)))
+        except Exception as e:  # noqa: BLE001
+            print(f"mutation {mu['how']}: raised {e!r}; marginal by name {want!r}; VIOLATES")
+            return 1
+        bad = not close(v, want, 1e-9)
+        print(f"mutation {mu['how']}: {v!r}; marginal of the data by name: {want!r}; {'VIOLATES' if bad else 'ok'}")
+        return 1 if bad else 0
     if obj.get("probe"):
         res = RG.run_probe(obj["probe"])
         print(f"regime {obj['probe']['kind']}: {json.dumps({k: v for k, v in res.items() if k != 'where'}, default=str)[:500]}; {'ok' if res['ok'] else 'VIOLATES'}")
